@@ -1,6 +1,7 @@
 import Emitter.Props.C20
 #print axioms Emitter.C20.fact_xtea_sum
 #print axioms Emitter.C20.fact_alphabet
+#print axioms Emitter.C20.fact_decode_table
 #print axioms Emitter.C20.key_roundtrip
 #print axioms Emitter.C20.encrypt_injective
 #print axioms Emitter.C20.reject_invalid
